@@ -37,11 +37,14 @@ struct Model {
     reqi: u8,
     proto: Proto,
     compressed: bool,
+    /// flag bits without a name (reserved / future bits) configured through `isi_flags(from_bits_retain(..))`:
+    /// the single-flag setters must leave them alone
+    extra_flag_bits: u16,
 }
 
 impl Default for Model {
     fn default() -> Self {
-        Model { flags: vec![false; 10], prefix: None, interval_ms: None, iname: None, admin: None, reqi: 0, proto: Proto::Tcp, compressed: true }
+        Model { flags: vec![false; 10], prefix: None, interval_ms: None, iname: None, admin: None, reqi: 0, proto: Proto::Tcp, compressed: true, extra_flag_bits: 0 }
     }
 }
 
@@ -71,6 +74,8 @@ impl Model {
 enum Call {
     Flag(usize, bool),
     FlagsWholesale(Vec<bool>),
+    /// wholesale replacement with raw bits, named or not
+    FlagsRaw(u16),
     Prefix(Option<u8>),
     Interval(Option<u64>),
     IName(Option<String>),
@@ -107,9 +112,20 @@ fn apply(b: Builder, m: &mut Model, c: &Call, remote: SocketAddr, local: SocketA
         },
         Call::FlagsWholesale(v) => {
             m.flags = v.clone();
+            m.extra_flag_bits = 0;
             let names: Vec<String> = FLAGS.iter().zip(v.iter()).filter(|(_, on)| **on).map(|(n, _)| n.to_string()).collect();
             let f: IsiFlags = bind::fl(&names).expect("IsiFlags by name");
             b.isi_flags(f)
+        },
+        Call::FlagsRaw(bits) => {
+            let mut named_mask = 0u16;
+            for (i, n) in FLAGS.iter().enumerate() {
+                let bit = bind::fl::<IsiFlags>(&[n.to_string()]).expect("IsiFlags by name").bits();
+                named_mask |= bit;
+                m.flags[i] = bits & bit != 0;
+            }
+            m.extra_flag_bits = bits & !named_mask;
+            b.isi_flags(IsiFlags::from_bits_retain(*bits))
         },
         Call::Prefix(p) => {
             m.prefix = *p;
@@ -202,7 +218,13 @@ fn random_call(r: &mut Rng) -> Call {
     let ascii = |r: &mut Rng| -> String { (0..r.usize_below(17)).map(|_| (b'a' + r.below(26) as u8) as char).collect() };
     match r.below(17) {
         0..=4 => Call::Flag(r.usize_below(10), r.chance(1, 2)),
-        5 => Call::FlagsWholesale((0..10).map(|_| r.chance(1, 2)).collect()),
+        5 => {
+            if r.chance(1, 3) {
+                Call::FlagsRaw(r.below(65536) as u16)
+            } else {
+                Call::FlagsWholesale((0..10).map(|_| r.chance(1, 2)).collect())
+            }
+        },
         6 => Call::Prefix(if r.chance(1, 4) { None } else { Some(r.range(0x21, 0x7e) as u8) }),
         7 => Call::Interval(if r.chance(1, 4) {
             None
@@ -248,7 +270,13 @@ fn random_call(r: &mut Rng) -> Call {
 
 fn reference_image(c: &Corpus, m: &Model) -> Vec<u8> {
     let lay = c.spec.packet("ISI");
-    c.spec.encode(lay, &m.expected(), m.compressed, &crate::corpus::real_text_enc).frame
+    let mut f = c.spec.encode(lay, &m.expected(), m.compressed, &crate::corpus::real_text_enc).frame;
+    if f.len() >= 8 {
+        // Flags is the 16-bit word at offset 6
+        f[6] |= (m.extra_flag_bits & 0xff) as u8;
+        f[7] |= (m.extra_flag_bits >> 8) as u8;
+    }
+    f
 }
 
 /// isi() of the builder vs the reference model.
@@ -264,13 +292,16 @@ fn check_isi(c: &Corpus, b: &Builder, m: &Model, calls: &[Call], p: &mut Part) {
         },
     };
     let lay = c.spec.packet("ISI");
-    let expect = match bind::from_fields(&c.spec, lay, &m.expected()) {
+    let mut expect = match bind::from_fields(&c.spec, lay, &m.expected()) {
         Ok(e) => e,
         Err(e) => {
             p.violation("C18/binding", e, replay);
             return;
         },
     };
+    if let Packet::Isi(i) = &mut expect {
+        i.flags = IsiFlags::from_bits_retain(i.flags.bits() | m.extra_flag_bits);
+    }
     let got = norm_debug(&Packet::Isi(isi.clone()));
     let want = norm_debug(&expect);
     if got != want {
